@@ -152,6 +152,7 @@ Definition op_ok (st : sst) (o : op) : bool :=
   | OCreate data block => (N.of_nat (length data) + 1 + block <? 4294967296)%N
   (* a second buffer / a copy is made with wbxml_buffer_create: its size computation must not wrap *)
   | ODuplicate | OSplitWords => (n + n + 22 <? 4294967296)%N
+  | OStrip => (n + 1 <? 4294967296)%N                 (* positions are 32-bit: end-- / end + 1 must not wrap *)
   | OInsert src _ | OAppend src | OCompare src | OSearch src _ => (N.of_nat (length src) + 22 <? 4294967296)%N
   | ODelete pos k => snd st || (n <=? pos)%N || (k =? 0)%N || (pos + k <=? n)%N
   | _ => true
